@@ -1280,3 +1280,274 @@ def r_cfbver(ctx, rep):
         rep.violation("R-CFBVER", key, loc(bad[0]), "Cfb::new branches on the header's format version: the same physical layout (e.g. a root entry without mini stream, start = ENDOFCHAIN) is accepted for one version and rejected for the other")
     else:
         rep.holds("R-CFBVER", key, loc(fn.raw), "no decision of Cfb::new reads the format version")
+
+
+def r_strbytes(ctx, rep):
+    """C14 / C16: an XLUnicodeStringNoCch is a flag byte followed by cch characters of one *or two* bytes.  Its byte
+    extent is only known after looking at the flag, so (a) the slice handed to the decoder must not be cut at the
+    character count, and (b) the formula cursor must advance by the number of bytes the decoder reports, not by an
+    expression in the character count."""
+    F = ctx.facts("default")
+    fn = F.fn("xls::read_unicode_string_no_cch")
+    key = "xls::read_unicode_string_no_cch|R-STRBYTES|slice"
+    if fn is None:
+        rep.anchor_missing("R-STRBYTES", "xls::read_unicode_string_no_cch")
+    else:
+        calls = [c for c in walk_k(fn.body, "MethodCall") if c.get("name") == "decode_to"]
+        if not calls:
+            rep.anchor_missing("R-STRBYTES", "decode_to call in read_unicode_string_no_cch")
+        else:
+            lens = {p["lid"] for p in fn.params if p.get("k") == "Binding" and "usize" in (p.get("ty") or "")}
+            arg = calls[0]["args"][0]
+            cut = []
+            for ix in walk_k(arg, "Index"):
+                idx = unwrap(ix["idx"])
+                ends = []
+                if idx.get("k") == "Struct":
+                    ends = [x["e"] for x in idx.get("fields", []) if x["name"] == "end"]
+                elif idx.get("k") == "Call" and (callee(idx) or "").endswith("RangeInclusive::new"):
+                    ends = idx["args"][1:2]
+                for e in ends:
+                    if any(path_local(p) and path_local(p)[1] in lens for p in walk_k(e, "Path")):
+                        cut.append(ix)
+            if cut:
+                rep.violation("R-STRBYTES", key, loc(cut[0]), "the bytes handed to the decoder are cut at the character count: a string stored as 16-bit characters (fHighByte = 1) needs twice as many bytes, so only half of it is decoded")
+            else:
+                rep.holds("R-STRBYTES", key, loc(calls[0]), "the decoder sees the rest of the buffer and stops after cch characters by itself")
+    pf = F.fn("xls::parse_formula")
+    key = "xls::parse_formula|R-STRBYTES|PtgStr advance"
+    if pf is None:
+        rep.anchor_missing("R-STRBYTES", "xls::parse_formula")
+        return
+    from .r_ptg import _ptg_match, _arm_for
+    m = _ptg_match(pf)
+    arm = _arm_for(m, 0x17) if m else None
+    if arm is None:
+        rep.anchor_missing("R-STRBYTES", "PtgStr (0x17) arm of xls::parse_formula")
+        return
+    src = _pattern_sources(pf)
+    ok = False
+    where = arm
+    for asg in walk_k(arm["body"], "Assign"):
+        if path_local(asg["l"]) and path_local(asg["l"])[0] == "rgce":
+            where = asg
+            for p in walk_k(asg["r"], "Path"):
+                pl = path_local(p)
+                s_ = src.get(pl[1]) if pl else None
+                if s_ and s_[0] == "init" and s_[1] is not None and not isinstance(s_[1], tuple) and any((callee(c) or "").endswith("read_unicode_string_no_cch") or c.get("name") == "decode_to" for c in walk_k(s_[1], "Call", "MethodCall")):
+                    ok = True
+    if ok:
+        rep.holds("R-STRBYTES", key, loc(where), "the cursor advances by the byte count the decoder returned")
+    else:
+        rep.violation("R-STRBYTES", key, loc(where), "after a PtgStr the formula cursor advances by an expression that does not come from the decoder's byte count: a string literal stored as 16-bit characters leaves the cursor in the middle of it and every later token is misread")
+
+
+def r_intarm(ctx, rep):
+    """C09 (numeric casts): an integer cell (Data::Int) bound to an integer or float field is converted by casting the
+    stored i64 itself -- the arm of deserialize_<num> that takes Data::Int casts its own binding, it does not route
+    the value through a helper that first turns it into another numeric type."""
+    from .kit import pat_variant, pat_bindings
+    F = ctx.facts("default")
+    n = 0
+    for fn in F.fns_in("src/de.rs"):
+        m = re.search(r"::deserialize_([iuf](?:8|16|32|64))$", fn.name)
+        if not m or "DataDeserializer" not in fn.name:
+            continue
+        n += 1
+        key = "DataDeserializer::deserialize_%s|R-INTARM" % m.group(1)
+        arm = None
+        for mt in walk_k(fn.body, "Match"):
+            for a in mt["arms"]:
+                if (pat_variant(a["pat"]) or "").endswith("Data::Int"):
+                    arm = a
+        if arm is None:
+            rep.violation("R-INTARM", key, loc(fn.raw), "no arm takes Data::Int by itself (it is merged with another variant or missing): integer cells no longer convert by a cast of the stored integer")
+            continue
+        lids = {lid for _, lid in pat_bindings(arm["pat"])}
+        direct = [c for c in walk_k(arm["body"], "Cast") if path_local(peel(c["e"])) and path_local(peel(c["e"]))[1] in lids]
+        if direct:
+            rep.holds("R-INTARM", key, loc(direct[0]), "Data::Int(v) => *v as %s" % direct[0].get("ty"))
+        else:
+            rep.violation("R-INTARM", key, loc(arm), "the Data::Int arm does not cast its own binding: the integer reaches the field through another conversion (e.g. as_f64), which loses precision beyond 2^53")
+    rep.floor("R-INTARM", 10, "deserialize_<num> methods of DataDeserializer")
+
+
+def r_emptydef(ctx, rep):
+    """C09 / C01-C04 (empty cells are absent): a cell is empty iff it is the Empty variant.  Every `is_empty` defined
+    for Data / DataRef (the DataType impls and the deserializer's ToCellDeserializer impl) mentions that variant
+    and no other; a definition that also calls the emptiness of a payload (String("") ...) changes which cells are
+    skipped by readers and by map deserialization."""
+    F = ctx.facts("default")
+    n = 0
+    for fn in F.fns:
+        if not fn.name.endswith("::is_empty") or fn.impl_self not in ("datatype::Data", "datatype::DataRef"):
+            continue
+        n += 1
+        key = "%s|R-EMPTYDEF" % fn.name
+        variants = set()
+        for p in walk(fn.body):
+            d = None
+            if p.get("k") == "Path":
+                d = path_def(p)
+            elif p.get("k") in ("PLit",) and isinstance(p.get("e"), dict):
+                d = norm(p["e"].get("res", {}).get("ctor_of") or p["e"].get("res", {}).get("def"))
+            elif p.get("k") in ("TupleStruct", "Struct") and p.get("res"):
+                d = norm(p["res"].get("ctor_of") or p["res"].get("def"))
+            if d and re.search(r"datatype::Data(Ref)?::[A-Z]\w*$", d):
+                variants.add(d.rsplit("::", 1)[-1])
+        payload = [c for c in walk_k(fn.body, "MethodCall") if c.get("name") in ("is_empty", "len") and "datatype::" not in (callee(c) or "")]
+        deleg = [c for c in walk_k(fn.body, "MethodCall", "Call") if (callee(c) or "").endswith("::is_empty") and "datatype::" in (callee(c) or "")]
+        if payload or (variants - {"Empty"}):
+            rep.violation("R-EMPTYDEF", key, loc(fn.raw), "%s treats more than the Empty variant as empty (%s): a cell holding an empty string would be dropped by the readers' Empty filter and skipped by map deserialization" % (fn.name, ", ".join(sorted(variants - {"Empty"})) or "a payload emptiness test"))
+        elif variants == {"Empty"} or deleg:
+            rep.holds("R-EMPTYDEF", key, loc(fn.raw), "empty iff the Empty variant" if variants else "delegates to another Data/DataRef is_empty (checked on its own)")
+        else:
+            rep.violation("R-EMPTYDEF", key, loc(fn.raw), "%s does not test for the Empty variant" % fn.name)
+    rep.floor("R-EMPTYDEF", 3, "DataType::is_empty for Data and DataRef, ToCellDeserializer::is_empty for Data")
+
+
+def r_trunc(ctx, rep):
+    """C14 (any column A..XFD): utils::push_column turns a column index into letters; every integer cast on the way
+    must be lossless for the values that can reach it.  Decided with the interval analysis of the MIR interpreter: the
+    operand interval of each int-to-int cast lies inside the target type (`(col % 26) as u8` does; `col as u8`
+    followed by `% 26` truncates every column beyond 255 first)."""
+    from . import mirflow
+    F = ctx.facts("default")
+    name = "utils::push_column"
+    if name not in F.mir:
+        rep.anchor_missing("R-TRUNC", name)
+        return
+    P = mirflow.Program(F)
+    r = P.runs.get(name)
+    if r is None:
+        rep.anchor_missing("R-TRUNC", name)
+        return
+    r.run()
+    casts = getattr(r, "int_casts", {})
+    n = 0
+    for tag, (tc, lo, hi, fits) in sorted(casts.items()):
+        n += 1
+        try:
+            bi, si = [int(x) for x in tag.split("_")[:2]]
+            sp = r.blocks[bi]["stmts"][si].get("span", {})
+            where = "%s:%s" % (sp.get("f"), sp.get("l"))
+        except Exception:
+            where = "?"
+        key = "%s|R-TRUNC|cast#%d to %s" % (name, n, tc)
+        if fits:
+            rep.holds("R-TRUNC", key, where, "operand in [%s, %s] fits %s" % (lo, hi, tc))
+        else:
+            rep.violation("R-TRUNC", key, where, "a value in [%s, %s] is cast to %s: the column index is truncated before its letters are computed, so columns beyond the target's range render as other columns" % (lo, hi, tc))
+    if n < 1:
+        rep.anchor_missing("R-TRUNC", "integer casts in utils::push_column")
+
+
+def r_idxwidth(ctx, rep):
+    """C01 / C10: the shared-string index and the style index of an xlsx cell are unbounded decimal numbers; they are
+    parsed as usize.  A narrower parse type turns a large index into a parse failure that `unwrap_or(0)` maps to
+    entry 0 -- the cell silently reads as the first string / style."""
+    F = ctx.facts("default")
+    fn = F.fn("xlsx::cells_reader::read_v")
+    if fn is None:
+        rep.anchor_missing("R-IDXWIDTH", "xlsx::cells_reader::read_v")
+        return
+    n = 0
+    for c in walk_k(fn.body, "Call"):
+        if not (callee(c) or "").startswith("atoi_simd::parse"):
+            continue
+        t = re.match(r"core::result::Result<([^,]+),", c.get("ty") or "")
+        got = t.group(1) if t else "?"
+        # only index parses: their value reaches an Index / get
+        n += 1
+        key = "xlsx::cells_reader::read_v|R-IDXWIDTH|parse#%d" % n
+        if got in ("usize", "u64", "f64", "i64"):
+            rep.holds("R-IDXWIDTH", key, loc(c), "parsed as %s" % got)
+        else:
+            rep.violation("R-IDXWIDTH", key, loc(c), "an index of the cell is parsed as %s: values beyond its range fail to parse and fall back to entry 0 (the first shared string / style) without an error" % got)
+    rep.floor("R-IDXWIDTH", 2, "style index and shared-string index parses in read_v")
+
+
+_UTF16_DECODERS = ("encoding_rs::Encoding::decode", "encoding_rs::Encoding::decode_without_bom_handling", "encoding_rs::Encoding::decode_with_bom_removal",
+                   "alloc::string::String::from_utf16", "alloc::string::String::from_utf16_lossy", "core::char::decode_utf16", "core::char::methods::<impl char>::decode_utf16")
+
+
+def r_utf16(ctx, rep):
+    """C03 / C19 (characters outside the BMP): xlsb strings are UTF-16; a surrogate pair is one character.  wide_str
+    must hand the code units to a UTF-16 decoder (encoding_rs UTF_16LE, String::from_utf16*, char::decode_utf16); a
+    per-unit `char::from_u32` turns every astral character into two replacement characters."""
+    F = ctx.facts("default")
+    fn = F.fn("xlsb::wide_str")
+    key = "xlsb::wide_str|R-UTF16"
+    if fn is None:
+        rep.anchor_missing("R-UTF16", "xlsb::wide_str")
+        return
+    dec = [c for c in walk_k(fn.body, "Call", "MethodCall") if (callee(c) or "") in _UTF16_DECODERS]
+    per_unit = [c for c in walk_k(fn.body, "Call", "MethodCall") if (callee(c) or "").endswith("from_u32") or (callee(c) or "").endswith("from_u32_unchecked")]
+    if dec and not per_unit:
+        rep.holds("R-UTF16", key, loc(dec[0]), "decoded by %s" % callee(dec[0]))
+    else:
+        rep.violation("R-UTF16", key, loc((per_unit or [fn.raw])[0]), "wide_str does not decode its code units with a UTF-16 decoder%s: characters outside the BMP (surrogate pairs) do not survive" % (" (it converts unit by unit with %s)" % callee(per_unit[0]) if per_unit else ""))
+
+
+def r_bookorder(ctx, rep):
+    """C13 (directory-entry order does not matter): a dual-format file holds both a BIFF8 `Workbook` and a BIFF5 `Book`
+    stream; the BIFF8 one is the workbook.  parse_workbook asks for the literal name "Workbook" first and for "Book"
+    only when that fails -- the choice never depends on the order of the directory entries."""
+    F = ctx.facts("default")
+    fn = F.fn("xls::Xls::parse_workbook")
+    key = "xls::Xls::parse_workbook|R-BOOKORDER"
+    if fn is None:
+        rep.anchor_missing("R-BOOKORDER", "xls::Xls::parse_workbook")
+        return
+    calls = sorted((c for c in walk_k(fn.body, "MethodCall") if c.get("name") == "get_stream" and (callee(c) or "").endswith("Cfb::get_stream")), key=lambda c: (c["span"]["l"], c["span"]["c"]))
+    names = [lit_value(c["args"][0]) if c.get("args") else None for c in calls]
+    if names[:2] == ["Workbook", "Book"] and len(names) == 2:
+        # the second call must sit in the failure path of the first
+        first, second = calls
+        in_fallback = False
+        for n, anc in walk_anc(fn.body):
+            if n is second:
+                in_fallback = any(a.get("k") == "Closure" for a in anc) and any(a.get("k") == "MethodCall" and a.get("name") in ("or_else", "unwrap_or_else") for a in anc)
+                in_fallback = in_fallback or any(a.get("k") == "Match" for a in anc if any(x is first for x in walk(a.get("scrut") or {})))
+        if in_fallback:
+            rep.holds("R-BOOKORDER", key, loc(first), "get_stream(\"Workbook\") first, get_stream(\"Book\") only as its fallback")
+        else:
+            rep.violation("R-BOOKORDER", key, loc(second), "the `Book` stream is not read only as a fallback of a failed `Workbook` lookup")
+    else:
+        rep.violation("R-BOOKORDER", key, loc(calls[0] if calls else fn.raw), "the workbook stream is not selected by asking for the literal \"Workbook\" and then \"Book\" (found %s): which of the two streams of a dual-format file is read may depend on the directory order" % names)
+
+
+_ONE_TO_ONE = ("into_iter", "iter", "map", "collect", "cloned", "enumerate")
+
+
+def r_names1to1(ctx, rep):
+    """C14 / C16: PtgName tokens refer to defined names by their 1-based record number, and defined_names() lists every
+    name.  The post-processing of the Lbl list in xls parse_workbook (which prepends the sheet of sheet-local names)
+    must therefore be one-to-one: only into_iter / map / collect style adaptors, nothing that drops or reorders."""
+    F = ctx.facts("default")
+    fn = F.fn("xls::Xls::parse_workbook")
+    if fn is None:
+        rep.anchor_missing("R-NAMES1TO1", "xls::Xls::parse_workbook")
+        return
+    n = 0
+    for l in walk_k(fn.body, "Let"):
+        names = [b[0] for b in __import__("rules.kit", fromlist=["pat_bindings"]).pat_bindings(l["pat"])]
+        if names != ["defined_names"] or l.get("init") is None:
+            continue
+        init = unwrap(l["init"])
+        chain = []
+        e = init
+        while isinstance(e, dict) and e.get("k") == "MethodCall":
+            chain.append(e["name"])
+            e = peel(e["recv"])
+        root = path_local(e) if isinstance(e, dict) else None
+        if not root or root[0] != "defined_names":
+            continue
+        n += 1
+        key = "xls::Xls::parse_workbook|R-NAMES1TO1|#%d" % n
+        bad = [m for m in chain if m not in _ONE_TO_ONE]
+        if bad:
+            rep.violation("R-NAMES1TO1", key, loc(l), "the defined-name list is rebuilt with `%s`: entries can be dropped or moved, so every later name changes its record number (a PtgName then shows another name or #REF!) and defined_names() no longer lists every name" % ", ".join(bad))
+        else:
+            rep.holds("R-NAMES1TO1", key, loc(l), "rebuilt one-to-one (%s)" % " . ".join(reversed(chain)))
+    rep.floor("R-NAMES1TO1", 1, "the sheet-prefixing pass over defined_names")
